@@ -160,8 +160,11 @@ impl<B: StarkField> Spec<B> {
         let num_rands = info.get_num_aux_segment_rand_elements();
         let n = info.length();
         let mut rng = Rng::new(mix(&[knobs.seed, main_width as u64, aux_width as u64, n as u64, 0x6a1]));
+        // a trace length no honest instance of this harness uses can only come from an
+        // attacker-edited proof: keep the AIR small then (GenAir::new must stay cheap and total)
+        let oversized = n > (1 << 16);
         // periodic columns: cycle lengths 2..=n
-        let max_log = n.ilog2().max(1);
+        let max_log = if oversized { 8 } else { n.ilog2().max(1) };
         let mut periodic: Vec<Vec<B>> = Vec::new();
         for _ in 0..knobs.periodic_cols {
             let c = 1usize << (1 + rng.below(max_log as u64) as u32).min(max_log);
@@ -242,7 +245,7 @@ impl<B: StarkField> Spec<B> {
         // single assertions only on cells it does not cover
         let mut assertions = vec![AssertSpec { column: 0, kind: AssertKind::Single { step: 0 } }];
         let mut multi: Vec<Option<(usize, usize)>> = vec![None; main_width];
-        if knobs.assertion_density > 0 {
+        if knobs.assertion_density > 0 && !oversized {
             for j in 0..main_width {
                 let dice = rng.below(if knobs.assertion_density == 2 { 3 } else { 8 });
                 if j == 0 || dice != 0 {
